@@ -11,6 +11,9 @@ cp "$demo" visitor/tests/$name.rs
 clean=$(cargo test --offline -p swc-vue-jsx-visitor --test $name 2>&1 | grep -E "^test result" | tail -1)
 if ! git apply "$patch" 2>/dev/null; then echo "RESULT $d patch-does-not-apply clean=[$clean]"; rm -f visitor/tests/$name.rs; exit 1; fi
 fix=$(cargo test --offline -p swc-vue-jsx-visitor --test fixture 2>&1 | grep -E "^test result" | tail -1)
-mut=$(cargo test --offline -p swc-vue-jsx-visitor --test $name 2>&1 | grep -E "^test result|error\[|could not compile" | tail -1)
+mutout=$(cargo test --offline -p swc-vue-jsx-visitor --test $name 2>&1); mutrc=$?
+mut=$(echo "$mutout" | grep -E "^test result|error\[|could not compile" | tail -1)
+# a demonstration that kills the test process (stack overflow, abort) fails too, without a summary line
+if [ -z "$mut" ] && [ $mutrc -ne 0 ] && echo "$mutout" | grep -qE "signal: |has overflowed its stack|process didn't exit successfully"; then mut="test result: FAILED. (test process died: $(echo "$mutout" | grep -oE 'signal: [0-9]+, [A-Z]+' | head -1))"; fi
 git checkout HEAD -- . ; rm -f visitor/tests/$name.rs
 echo "RESULT $d | clean-demo: $clean | fixtures-with-mutant: $fix | mutant-demo: $mut"
